@@ -134,12 +134,18 @@ impl Server for LocalServer {
         // invent a new ID for this version
         let version_id = Uuid::new_v4();
 
+        #[cfg(gothenburgbitfactory_taskchampion_verif)]
+        crate::verif::failpoint::hit("local:add_version:before-insert")?;
         self.add_version_by_parent_version_id(Version {
             version_id,
             parent_version_id,
             history_segment,
         })?;
+        #[cfg(gothenburgbitfactory_taskchampion_verif)]
+        crate::verif::failpoint::hit("local:add_version:between")?;
         self.set_latest_version_id(version_id)?;
+        #[cfg(gothenburgbitfactory_taskchampion_verif)]
+        crate::verif::failpoint::hit("local:add_version:after-latest")?;
 
         Ok((AddVersionResult::Ok(version_id), SnapshotUrgency::None))
     }
